@@ -11,7 +11,7 @@ CHECKS = {
                 "only for single-assignment values, pruning only under proven constness/unusedness, loop lowerings set their "
                 "continue/break labels and continue reaches the step code, range direction, operator->opcode rows, operand origin "
                 "and order at non-commutative sites. Decides these clauses for every program; does not decide trace equivalence.",
-        "design_ref": "DESIGN.md section 2, C01 (R01.a-h)",
+        "design_ref": "DESIGN.md section 2 and 6, C01 (R01.a-k)",
         "note": _TRUST + "Not decided: evaluation order of stitched fragments, used/const inference as a whole, the select-chain / "
                 "jump-table lowering, anything depending on program shape.",
         "technique": _T + "emission-site extraction, value-set evaluation of opcode expressions under flag case splits, guard/dominator queries on a per-function CFG, table extraction",
@@ -30,7 +30,7 @@ CHECKS = {
                 "class, bitwise rows evaluate on integers), of the math-function table (name is a math function of that arity and an "
                 "intrinsic of the same name), of the named constants, of the operand coercion, and of the guard under which a "
                 "constant is propagated through a variable. Decides table agreement for all rows, not numeric agreement on all doubles.",
-        "design_ref": "DESIGN.md section 2, C03 (R03.a-f)",
+        "design_ref": "DESIGN.md section 2 and 6, C03 (R03.a-j)",
         "note": _TRUST + "Not decided: IEEE corner cases (NaN, overflow, negative shift/modulus) of particular operands.",
         "technique": _T + "table extraction and per-row comparison of the evaluator lambda's AST with an operator-semantics oracle",
     },
@@ -50,7 +50,7 @@ CHECKS = {
                 "exactly once; all loop lowerings set continue/break labels; all constructions of a function label agree on the "
                 "qualified name and transformation; get_label always advances its counter. Decides these clauses, not the line-by-line "
                 "equality of both label modes.",
-        "design_ref": "DESIGN.md section 2, C05 (R05.a-e)",
+        "design_ref": "DESIGN.md section 2 and 6, C05 (R05.a-f)",
         "note": _TRUST + "Not decided: collisions of user identifiers with opcodes/registers; whole-output relation between label modes.",
         "technique": _T + "regex AST analysis (re._parser) against the extracted label alphabet, def/ref pairing of label variables over emission sites",
     },
@@ -59,14 +59,16 @@ CHECKS = {
                 "that inserts 'push ra' inserts 'pop ra'; the end label searched by the ra logic is the one the generator defines; "
                 "every exit form of compile_function is recognised by the needs-ra predicate; nested subroutine emitters save ra; the "
                 "restore sits after the end label. Necessary structure of the convention, not run-time stack balance.",
-        "design_ref": "DESIGN.md section 2, C06 (R06.a-f)",
+        "design_ref": "DESIGN.md section 2 and 6, C06 (R06.a-i)",
         "note": _TRUST + "Not decided: run-time stack-pointer balance along all paths.",
         "technique": _T + "emission-site pairing across caller/callee handlers under the convention flag, linear normal form of slot expressions",
     },
     "C07": {
-        "text": "Static rule check of the gather pass: the main region is emitted first and a non-fall-through transfer separates it from "
-                "the first function region. The pinned tree has no such transfer (known finding, pinned by the reference files).",
-        "design_ref": "DESIGN.md section 2, C07 (R07.a-b)",
+        "text": "Static rule check of the gather pass and of compile_function: the main region is emitted first; a non-fall-through "
+                "transfer must separate it from the first function region (the tree has none: known finding, pinned by the reference "
+                "files); every emitted function region is terminated after its end label, also under tail-call optimisation; region "
+                "emitted iff not inlined (one predicate); tail jumps only between non-inlined functions.",
+        "design_ref": "DESIGN.md section 2 and 6, C07 (R07.a-e)",
         "note": _TRUST + "Not decided: whether a given program's main code terminates.",
         "technique": _T + "ordering/must-pass-through rule on the gather loop with the ISA table saying which opcodes fall through",
     },
@@ -75,7 +77,7 @@ CHECKS = {
                 "forward order; number and symbolic spelling derive from one unmodified variable; _apply_output_mode returns the "
                 "spelling / the number by mode; format_enum prints name/value of one object; the mode is read only by the spelling "
                 "functions; enum numbers are unique. Decides token-level agreement per spelling function, not whole-output equality.",
-        "design_ref": "DESIGN.md section 2, C08 (R08.a-f)",
+        "design_ref": "DESIGN.md section 2 and 6, C08 (R08.a-h)",
         "note": _TRUST + "Not decided: agreement of enum numbers with the game's tables (not available offline).",
         "technique": _T + "idiom recognition with reaching definitions on the spelling functions, reader inventory of the mode variable, enum table extraction",
     },
@@ -121,7 +123,7 @@ CHECKS = {
         "text": "Static rule check: function code is appended only for the main region or called functions and never for constexpr "
                 "functions; __name__ folds to '__main__' only for the main scope; every access to the per-compile symbol/structure "
                 "tables is keyed by the qualified scope name; module-level values of every module get the unbounded lifetime.",
-        "design_ref": "DESIGN.md section 2, C13 (R13.a-d)",
+        "design_ref": "DESIGN.md section 2 and 6, C13 (R13.a-g)",
         "note": _TRUST + "Not decided: equivalence with the hand-merged single file.",
         "technique": _T + "guard queries at the emission loop and fold site, keyed-access inventory of the storage tables",
     },
@@ -148,7 +150,7 @@ CHECKS = {
                 "prefab name, singular/plural pairing, logic-type and slot properties, named slots -> numbered slots), all enum "
                 "classes (no duplicate numbers) and all intrinsic wrappers (own opcode, operands in order, output iff the ISA oracle "
                 "says so). The whole statement is decided for the tables of the working tree.",
-        "design_ref": "DESIGN.md section 2, C16 (R16.a-e)",
+        "design_ref": "DESIGN.md section 2 and 6, C16 (R16.a-f)",
         "note": _TRUST + "Own CRC-32 (sa/crc.py, cross-checked against zlib at start-up); sa/isa.py for instruction signatures.",
         "technique": _T + "exhaustive table extraction from the generated modules and cross-checking against an independent CRC-32 and the ISA oracle",
     },
